@@ -495,9 +495,12 @@ pub fn path_record(a: &Args) {
         // adjacency on a real diagram: circles of a random resolution, Seifert circles, components
         let (l, desc) = match random_braid_link(&mut rng) { Ok(x) => x, Err(d) => { panics += 1; t.emit(&json!({"op":"braid_closure","res":"panic","link":d})); continue; } };
         let cross: Vec<Vec<usize>> = l.data().iter().map(|x| x.edges().to_vec()).collect();
-        let fams: Vec<(&str, Vec<Path>)> = vec![
-            ("state", { let s = State::from_iter((0..l.data().len()).map(|_| if rng.gen_bool(0.5) { Bit::Bit1 } else { Bit::Bit0 })); l.resolved_by(&s).components() }),
-            ("seifert", l.seifert_circles()), ("components", l.components())];
+        // the circle families of the diagram: a panic of the library on a valid diagram is recorded as an event (which the
+        // specification cannot explain), it does not take the harness down
+        let st0 = State::from_iter((0..l.data().len()).map(|_| if rng.gen_bool(0.5) { Bit::Bit1 } else { Bit::Bit0 }));
+        let fams: Vec<(&str, Vec<Path>)> = match guarded(|| vec![("state", l.resolved_by(&st0).components()), ("seifert", l.seifert_circles()), ("components", l.components())]) {
+            Ok(f) => f,
+            Err(m) => { panics += 1; t.emit(&json!({"op":"circle_families","res":"panic","panic":m,"link":desc})); continue; } };
         for (fam, ps) in fams.iter() { for i in 0..ps.len() { for j in 0..ps.len() {
             if ps.len() > 4 && rng.gen_bool(0.5) { continue; }
             let r = guarded(|| ps[i].is_adj(&ps[j], &l)); adj_calls += 1; if r == Ok(true) { adj_true += 1; }
